@@ -23,7 +23,7 @@ type Opts struct {
 var AllFeatures = []string{
 	"async", "err", "multi", "bind", "struct", "value", "sets", "lit", "ext", "ctxparam",
 	"composite", "basic", "args", "unneeded", "multi-inj", "multi-file", "dupparam",
-	"generic", "variadic", "variadic-functype", "want-unsupplied", "kalias", "extalias", "value-and-pointer",
+	"generic", "variadic", "variadic-functype", "want-unsupplied", "kalias", "extalias", "value-and-pointer", "rewrap", "struct-both-forms",
 	"async-struct", "ptrrecv", "aiface", "embedded",
 }
 
@@ -56,6 +56,7 @@ type gen struct {
 	consumed map[TypeID]bool
 	last     bool
 	curExt   string
+	family   string
 	pending  map[TypeID]bool
 	roots    int // the first `roots` units take no provided inputs (fork), the last unit joins
 }
@@ -123,8 +124,29 @@ func (g *gen) importNameTaken(n string) bool {
 
 var reservedLower = map[string]bool{"go": true, "if": true, "in": true, "do": true, "ok": true, "eg": true, "ch": true, "id": true}
 
+var advFamilies = []string{"Foo", "Val", "Err", "Num", "Ctx", "Str", "Eg", "Config", "X"}
+
+// familyNames are the members of a name family: the base, suffixed look-alikes and channel look-alikes.
+func familyNames(base string) []string {
+	return []string{base, base + "0", base + "Ch", base + "1", base + "Ch0", base + "00", base + "0Ch", base + "Ch1"}
+}
+
 // typeName returns a fresh type name: from the adversarial pool when the adversary is on.
 func (g *gen) typeName(prefix string) string {
+	if g.o.Adversarial && g.family != "" && rapid.IntRange(0, 99).Draw(g.rt, "famname") < 45 {
+		// names of one family collide with each other's generated variable / channel names
+		fam := familyNames(g.family)
+		k := rapid.IntRange(0, len(fam)-1).Draw(g.rt, "famidx")
+		for i := 0; i < len(fam); i++ {
+			n := fam[(k+i)%len(fam)]
+			if !g.used[n] {
+				g.used[n] = true
+				g.c.AddFeature("adv-names")
+				g.c.AddFeature("adv-name-family")
+				return n
+			}
+		}
+	}
 	if g.o.Adversarial && rapid.IntRange(0, 99).Draw(g.rt, "advname") < 55 {
 		k := rapid.IntRange(0, len(advTypeNames)-1).Draw(g.rt, "advidx")
 		for i := 0; i < len(advTypeNames); i++ {
@@ -310,7 +332,7 @@ func (g *gen) freshValueType(extOnly bool, label string) TypeID {
 			if rapid.Bool().Draw(g.rt, "compptr") {
 				s = g.addType(Type{Kind: KPtr, Elem: s})
 			}
-			switch rapid.IntRange(0, 7).Draw(g.rt, "compkind") {
+			switch rapid.IntRange(0, 8).Draw(g.rt, "compkind") {
 			case 0:
 				return g.addType(Type{Kind: KSlice, Elem: s})
 			case 1:
@@ -335,6 +357,14 @@ func (g *gen) freshValueType(extOnly bool, label string) TypeID {
 			case 6:
 				return g.addType(Type{Kind: KAStruct, Elem: s})
 			default:
+				if g.allow("ext") && rapid.Bool().Draw(g.rt, "extkey") {
+					// the only mention of the external package may be this map key
+					g.c.AddFeature("ext")
+					g.c.AddFeature("map-key-ext")
+					e := g.ensureExt()
+					key := g.addType(Type{Kind: KNBasic, Name: g.name("M"), Pkg: e.Key, Basic: "string"})
+					return g.addType(Type{Kind: KMap, Key: key, HasKey: true, Elem: s})
+				}
 				key := g.addType(Type{Kind: KNBasic, Name: g.name("N"), Basic: "string"})
 				return g.addType(Type{Kind: KMap, Key: key, HasKey: true, Elem: s})
 			}
@@ -437,6 +467,9 @@ func Gen(rt *rapid.T, o Opts) *Case {
 	if g.want("kalias", "kalias", 10) {
 		g.c.KAlias = "ksk"
 	}
+	if o.Adversarial && rapid.IntRange(0, 99).Draw(rt, "usefamily") < 60 {
+		g.family = rapid.SampledFrom(advFamilies).Draw(rt, "family")
+	}
 	if o.AsyncMode == "" {
 		g.o.AsyncMode = rapid.SampledFrom([]string{"some", "some", "some", "all", "none"}).Draw(rt, "asyncmode")
 	}
@@ -453,6 +486,10 @@ func Gen(rt *rapid.T, o Opts) *Case {
 		n := rapid.IntRange(0, 4).Draw(rt, "npkgnames")
 		for i := 0; i < n; i++ {
 			nm := rapid.SampledFrom(advPkgNames).Draw(rt, "pkgname")
+			if g.family != "" && rapid.Bool().Draw(rt, "fampkgname") {
+				fam := familyNames(g.family)
+				nm = lowerCamel(fam[rapid.IntRange(0, len(fam)-1).Draw(rt, "fampkgidx")])
+			}
 			if !g.used[nm] && !goReserved[nm] && !g.importNameTaken(nm) {
 				g.used[nm] = true
 				g.c.PkgNames = append(g.c.PkgNames, nm)
@@ -651,6 +688,21 @@ func (g *gen) genUnit(i int) {
 	for _, t := range p.Results {
 		g.supply(t, ui)
 	}
+	// the other form (T vs *T) of a struct with fields may be supplied by a second provider;
+	// Struct[...] then has to read from exactly the form it names
+	if st := g.c.StructOf(p.Results[0]); st != nil && len(st.Fields) > 0 && st.Pkg == "" && !extForm && g.want("struct-both-forms", "bothforms", 35) {
+		other := st.ID
+		if g.c.T(p.Results[0]).Kind != KPtr {
+			other = g.addType(Type{Kind: KPtr, Elem: st.ID})
+		}
+		if _, taken := g.supplierUnit[other]; !taken {
+			g.pid++
+			q := Prov{ID: g.pid, Form: "func", Name: g.name("Alt" + st.Name), Results: []TypeID{other}}
+			g.c.Provs = append(g.c.Provs, q)
+			g.units = append(g.units, Elem{Kind: "prov", Prov: q.ID, Async: g.drawAsync("async-alt")})
+			g.supply(other, len(g.units)-1)
+		}
+	}
 	// struct expansion of the first result
 	if st := g.c.StructOf(p.Results[0]); st != nil && len(st.Fields) > 0 && g.want("struct", "expand", 75) {
 		se := Elem{Kind: "struct", Struct: p.Results[0]}
@@ -795,7 +847,15 @@ func (g *gen) genGroupsAndInjectors() {
 				continue
 			}
 			included[ui] = true
-			elems = append(elems, g.units[ui])
+			el := g.units[ui]
+			if ii > 0 && el.Kind == "prov" && g.allow("async") && g.want("rewrap", "rewrap", 30) {
+				// the same provider is wrapped differently in different declarations of one run
+				el.Async = !el.Async
+				if el.Async && len(el.Bind) > 0 {
+					el.AsyncInner = rapid.Bool().Draw(g.rt, "rewrap-inner")
+				}
+			}
+			elems = append(elems, el)
 		}
 		for k := 1; k <= nSets; k++ {
 			if parent[k] != 0 {
